@@ -411,14 +411,19 @@ def readable(v, x):
         if t == "date":
             return ("ok", ("d", x.toordinal()))
         return ("refuse", "not-readable") if t in ("float", "int") or isinstance(t, list) else ("dc",)
-    if isinstance(x, (int, float)) and not isinstance(x, bool) and (t in ("int", "date") or isinstance(t, list)):
-        if isinstance(x, int) or t != "date":
-            try:
-                big = not -2 ** 63 <= int(x) <= 2 ** 63 - 1
-            except (OverflowError, ValueError):
-                big = True
-            if big:
-                return ("refuse", "too-large")
+    if isinstance(x, (int, float)) and not isinstance(x, bool):
+        # repair C12n: outside the integer range of the variable (int32; int16 for an enum index) a
+        # number is refused; a date variable refuses an integer beyond a C long
+        if t == "int":
+            lo, hi = -2 ** 31, 2 ** 31 - 1
+        elif isinstance(t, list):
+            lo, hi = -2 ** 15, 2 ** 15 - 1
+        elif t == "date" and isinstance(x, int):
+            lo, hi = -2 ** 63, 2 ** 63 - 1
+        else:
+            lo = hi = None
+        if lo is not None and (x != x or not lo <= x <= hi):
+            return ("refuse", "too-large")
     if isinstance(x, list):
         if t == "str" or len(x) < 2:
             return ("dc",)
@@ -433,13 +438,13 @@ def readable(v, x):
         if isinstance(x, bool):
             return ("dc",)
         if isinstance(x, int):
-            if abs(x) >= 2 ** 24:
-                return ("dc",)
-            return ("ok", ("n", Fraction(x))) if t == "float" else ("ok", ("i", x))
+            if t == "int":
+                return ("ok", ("i", x))                      # in range (checked above): placed exactly
+            return ("ok", ("n", Fraction(x))) if f32_exact(Fraction(x)) else ("dc",)
         if isinstance(x, float):
             fr = Fraction(x)
             if t == "int":
-                return ("ok", ("i", int(fr))) if fr.denominator == 1 and abs(fr) < 2 ** 24 else ("dc",)
+                return ("ok", ("i", int(fr))) if fr.denominator == 1 else ("dc",)
             return ("ok", ("n", fr)) if f32_exact(fr) else ("dc",)
         if isinstance(x, str):
             if x.isalpha() and x in _PLAIN_WORDS:
@@ -1160,8 +1165,8 @@ def convertible_value(rng, v):
     if t == "float":
         return rng.choice([True, False, rng.choice(EXPRS)])
     if t == "int":
-        return rng.choice([2.5, -0.75, 7.0, True, rng.choice(EXPRS), 2 ** 31 - 1, -2 ** 31, 2 ** 31, -2 ** 31 - 1, 2 ** 32 + 5,
-                           2 ** 63 - 1, -2 ** 63, 2147483648.0, float(2 ** 62)])
+        return rng.choice([2.5, -0.75, 7.0, True, rng.choice(EXPRS), 2 ** 31 - 1, -2 ** 31, 2 ** 31 - 2, -2 ** 31 + 1, 2 ** 24 + 1,
+                           2147483647.0, -2147483648.0, 2147483520.0, 123456789])
     if t == "bool":
         return rng.choice([0, 1, 2, 0.0, 2.5, "yes", ""])
     if t == "date":
@@ -1516,9 +1521,16 @@ def mutate(rng, spec, doc, cls):
         return put(lambda v: v["type"] in ("float", "int", "bool", "date") or isinstance(v["type"], list),
                    lambda v, k: {k: [native_value(rng, v) for _ in range(rng.randint(2, 3))]})
     if cls == "too-large":
-        return put(lambda v: v["type"] in ("int", "date") or isinstance(v["type"], list),
-                   lambda v, k: {k: rng.choice([2 ** 63, -2 ** 63 - 1, 2 ** 64, 10 ** 30] +
-                                               ([float(2 ** 63), 1e19, -1e40] if v["type"] != "date" else []))})
+        def too_large(v, k):
+            if v["type"] == "int":
+                pool = [2 ** 31, -2 ** 31 - 1, 2 ** 32 + 5, 2 ** 63 - 1, -2 ** 63, 2 ** 63, 10 ** 30, 2147483648.0, -2147483649.0,
+                        2147483647.5, -2147483648.5, float(2 ** 62), 1e19, -1e40]
+            elif v["type"] == "date":
+                pool = [2 ** 63, -2 ** 63 - 1, 2 ** 64, 10 ** 30]
+            else:
+                pool = [2 ** 15, -2 ** 15 - 1, 65536, 2 ** 31, 2 ** 63, 32768.0, -32769.0, 32767.5, 1e19]
+            return {k: rng.choice(pool)}
+        return put(lambda v: v["type"] in ("int", "date") or isinstance(v["type"], list), too_large)
     if cls == "date-for-number":
         return put(lambda v: v["type"] in ("int", "float") or isinstance(v["type"], list),
                    lambda v, k: {k: dt.date(1980, rng.randint(1, 12), 3)})
@@ -1735,6 +1747,10 @@ def corpus():
         c("F-C12f", None, {"persons": {"a": {}, "b": {}}, "households": {"h": {"parents": ["a"], "h_f": {"2018-01": 5}}}}),
         c("F-C12f", None, {"persons": {"a": {}, "b": {}, "c": {}}, "households": {"h": {"parents": ["a"], "h_f": {"2018-01": 5}},
                                                                                  "k": {"h_f": {"2018-01": 6}}}}),
+        c("F-C12n", None, {"persons": {"a": {"p_i": {"2018-01": 2147483648}}}}),
+        c("F-C12n", None, {"persons": {"a": {"p_i": {"2018-01": -2147483649.0}}, "b": {"p_i": {"2018-01": 2147483647}}}}),
+        c("F-C12n", None, {"persons": {"a": {"p_e": {"2018-01": 32768}}}}),
+        c("F-C12n", None, {"persons": {"a": {"p_i": {"2018-01": 2147483647}}, "b": {"p_i": {"2018-01": -2147483648}}}}),
     ]
     return out + finding_cases(None, 0)
 
@@ -1812,7 +1828,11 @@ def modelled(v, x) -> bool:
             return True
         if isinstance(x, list):
             return len(x) != 1
-        return isinstance(x, int) and not isinstance(x, bool) and 0 <= x < len(t)
+        if isinstance(x, bool):
+            return False
+        if isinstance(x, float):
+            return not -2 ** 15 <= x <= 2 ** 15 - 1
+        return isinstance(x, int) and (0 <= x < len(t) or not -2 ** 15 <= x <= 2 ** 15 - 1)
     if t in ("float", "int"):
         if isinstance(x, str):
             return (all(c in "0123456789.+-* " for c in x) and "**" not in x) or plain
@@ -1828,6 +1848,8 @@ def modelled(v, x) -> bool:
     if t == "date":
         if isinstance(x, bool):
             return False
+        if isinstance(x, int):
+            return -700000 <= x <= 2900000 or not -2 ** 63 <= x < 2 ** 63
         if isinstance(x, str):
             if plain:
                 return True
@@ -1858,7 +1880,9 @@ def enumerate_thorough():
                         doc["families"] = lay
                     out.append(mk_case(S, None, doc, tags=("enum", "spellings")))
     values = [0, 1, -3, 2.5, -0.75, True, False, "1+1", "abc", "1 +", "2*3+1.5", "-2", "2018-01-01", "2018-02-30", "2018-13-01",
-              "2018", "2018-01", "red", "blue", "purple", [1, 2], ["red", "blue"], [], {"a": 1}, None, "hello", "2018-10-10", "7 ", " 7"]
+              "2018", "2018-01", "red", "blue", "purple", [1, 2], ["red", "blue"], [], {"a": 1}, None, "hello", "2018-10-10", "7 ", " 7",
+              dt.date(1980, 2, 3), 2 ** 31 - 1, 2 ** 31, -2 ** 31, -2 ** 31 - 1, 2 ** 63 - 1, 2 ** 63, -2 ** 63 - 1, float(2 ** 63),
+              2147483647.0, 2147483648.0, 2147483647.5, 32767, 32768, -32768, -32769, 32767.5]
     for v in [x for x in S["vars"] if x["entity"] == "person" and x["rule"] == "absent"]:
         key = spellings(v["unit"], CANON[v["unit"]][0])[0]
         for x in values:
